@@ -298,6 +298,8 @@ func (g *didGen) msg() (string, string) {
 			docID = "" // empty-id document
 		case 2:
 			didField = "did:panacea:short"
+		case 3, 4:
+			didField = nearMissDID(g.r, did) // a look-alike identifier: still well-formed, differs in one character
 		}
 		ref, doc, vmid := g.buildDoc(docID, key, g.shape())
 		sig := g.sign(key, doc, 0, pick(g.r, []int{0, 0, 0, 0, 0, 0, 0, 1, 2, 3}))
@@ -324,6 +326,8 @@ func (g *didGen) msg() (string, string) {
 		docID := did
 		if g.r.Chance(6) {
 			docID = g.dids[(d+1)%len(g.dids)]
+		} else if g.r.Chance(5) {
+			docID = nearMissDID(g.r, did)
 		}
 		ref, doc, newVM := g.buildDoc(docID, newKey, g.shape())
 		seq := g.seq[did]
@@ -418,6 +422,33 @@ func genDidHistory(r *RNG, nBlocks int) []string {
 		}
 	}
 	return g.lines
+}
+
+// nearMissDID returns a valid DID that differs from did in exactly one character of the method-specific id:
+// the other letter case where that is still a base58 character, otherwise the next base58 character.
+func nearMissDID(r *RNG, did string) string {
+	const pfx = "did:panacea:"
+	b := []byte(did)
+	for tries := 0; tries < 50; tries++ {
+		i := len(pfx) + r.Intn(len(b)-len(pfx))
+		c := b[i]
+		var alt byte
+		switch {
+		case c >= 'a' && c <= 'z':
+			alt = c - 32
+		case c >= 'A' && c <= 'Z':
+			alt = c + 32
+		}
+		if alt == 0 || !strings.ContainsRune(didtypes.Base58Charset, rune(alt)) {
+			idx := strings.IndexByte(didtypes.Base58Charset, c)
+			alt = didtypes.Base58Charset[(idx+1)%len(didtypes.Base58Charset)]
+		}
+		if alt != c {
+			b[i] = alt
+			return string(b)
+		}
+	}
+	return did
 }
 
 func (g *didGen) acctHex(addr string) string {
